@@ -96,6 +96,13 @@ type RecApp struct {
 	// QueryFn, when set, answers Query (after the call was journalled); committed is the
 	// height of the last Commit. nil = default behaviour.
 	QueryFn func(req abci.RequestQuery, committed int64) abci.ResponseQuery
+
+	// InitVals, when non-nil, is the validator set the application returns from InitChain
+	// (replacing the genesis validators; it also becomes the application's own validator
+	// view). InitParams, when non-nil, are the consensus parameter updates returned from
+	// InitChain. nil = the application accepts what the genesis document says.
+	InitVals   []abci.ValidatorUpdate
+	InitParams *abci.ConsensusParams
 }
 
 func NewRecApp(hashLen int) *RecApp {
@@ -221,6 +228,14 @@ func (c *connApp) InitChain(req abci.RequestInitChain) abci.ResponseInitChain {
 			a.work.Vals[hex.EncodeToString(pk.Bytes())] = v.Power
 		}
 	}
+	if a.InitVals != nil {
+		a.work.Vals = map[string]int64{}
+		for _, v := range a.InitVals {
+			if pk, err := cryptoenc.PubKeyFromProto(v.PubKey); err == nil && v.Power > 0 {
+				a.work.Vals[hex.EncodeToString(pk.Bytes())] = v.Power
+			}
+		}
+	}
 	sum := sha256.Sum256(append([]byte("init:"+req.ChainId+":"), req.AppStateBytes...))
 	a.work.Hash = sum[:]
 	a.work.InitDone = true
@@ -228,6 +243,13 @@ func (c *connApp) InitChain(req abci.RequestInitChain) abci.ResponseInitChain {
 	a.com = a.work.clone()
 	a.record(c.conn, Call{Name: "InitChain", Height: req.InitialHeight, Hash: hex.EncodeToString(a.appHash(a.com))})
 	res := abci.ResponseInitChain{AppHash: a.appHash(a.com)}
+	if a.InitVals != nil {
+		res.Validators = append([]abci.ValidatorUpdate{}, a.InitVals...)
+	}
+	if a.InitParams != nil {
+		p := *a.InitParams
+		res.ConsensusParams = &p
+	}
 	a.mu.Unlock()
 	a.point(c.conn, "InitChain:post")
 	return res
